@@ -1063,7 +1063,7 @@ impl Check for C09 {
         ]
     }
     fn rule() -> &'static str {
-        "Each run is one generated operation history (2/3 of them <= 10 steps, the rest up to 30/40) on a real lax::OpenHypergraph and, in lock step, a bare lax::Hypergraph, over a label alphabet of 1-3 node labels: new node/edge/operation, add source/target, unify (2/3 same-label partner, self pairs, repeats, chains; 1/3 arbitrary partner = possible conflict), interface assignment, deletions, relabelling, quotient (weight 6 of 29), restart through the simulated disk, fork. After a quotient that the model predicts to fail, 2/3 of the histories continue with a repair (relabel all / relabel the offender / delete the offender) and quotient again. Oracle after every step: all public fields equal the list model; on Ok(q): q total, surjective, fibres exactly the union-find classes of the pending pairs, diagram = model mapped through q (numbering adopted, never predicted), pending list empty, second quotient is the identity and changes nothing; Err iff a class holds two labels, and then the diagram equals the pre-call clone field for field. Non-trivial iff the history has a mutating step; distinct = distinct history fingerprints; states = distinct model-state hashes observed after steps."
+        "Each run is one generated operation history (2/3 of them <= 10 steps, the rest up to 30/40) on a real lax::OpenHypergraph and, in lock step, a bare lax::Hypergraph, over a label alphabet of 1-3 node labels: new node/edge/operation, add source/target, unify (2/3 same-label partner, self pairs, repeats, chains; 1/3 arbitrary partner = possible conflict), interface assignment, deletions, relabelling, quotient (weight 6 of 29), restart through the simulated disk, fork. After a quotient that the model predicts to fail, 2/3 of the histories continue with a repair (relabel all / relabel the offender / delete the offender) and quotient again. Oracle after every step: all public fields equal the list model; on Ok(q): q total, surjective, fibres exactly the union-find classes of the pending pairs (partition equality), diagram = model mapped through q (numbering adopted, never predicted), pending list empty, second quotient is the identity and changes nothing; Err iff a class holds two labels, and then the diagram equals the pre-call clone field for field. Non-trivial iff the history has a mutating step; distinct = distinct history fingerprints; states = distinct model-state hashes observed after steps."
     }
     fn assumptions() -> Vec<&'static str> {
         vec![
@@ -1096,7 +1096,7 @@ impl Check for C11 {
         shrink_history(c)
     }
     fn rule() -> &'static str {
-        "Each run is one generated builder history (2/3 of them <= 10 steps, the rest up to 40/60) on a real lax::OpenHypergraph and a bare lax::Hypergraph in lock step: new node, new edge (existing ids, repeats, zero arity), new operation, add edge source/target, unify, interface assignment through the public fields, delete nodes / delete edges (valid, duplicate, empty, out-of-range id lists; biased toward interface and unified nodes), map_nodes/map_edges, with_nodes/with_edges (right and wrong lengths), restart (serde_json::to_writer into a simulated disk with seeded short writes and EINTR, drop, from_reader with short reads and EINTR, continue on the restored value; JSON keys and bare-integer ids checked against README), fork (clone and continue; the original must not change). Oracle after every step: all six public fields equal the list model, returned ids = next fresh index, returned renumbering = the model's monotone renumbering, out-of-range deletions rejected. Non-trivial iff the history has a mutating step; distinct = distinct history fingerprints; states = distinct model-state hashes observed after steps."
+        "Each run is one generated builder history (2/3 of them <= 10 steps, the rest up to 40/60) on a real lax::OpenHypergraph and a bare lax::Hypergraph in lock step: new node, new edge (existing ids, repeats, zero arity), new operation, add edge source/target, unify, interface assignment through the public fields, delete nodes / delete edges (valid, duplicate, empty, out-of-range id lists, also on diagrams without nodes / hyperedges; biased toward interface and unified nodes; the deprecated aliases now and then), map_nodes/map_edges, with_nodes/with_edges (right and wrong lengths), restart (serde_json::to_writer into a simulated disk with seeded short writes and EINTR, drop, from_reader with short reads and EINTR, continue on the restored value; JSON keys and bare-integer ids checked against README), fork (clone and continue; the original must not change). Oracle after every step: all six public fields equal the list model, returned ids = next fresh index, returned renumbering = the model's monotone renumbering, out-of-range deletions rejected. Non-trivial iff the history has a mutating step; distinct = distinct history fingerprints; states = distinct model-state hashes observed after steps."
     }
     fn assumptions() -> Vec<&'static str> {
         vec![
